@@ -800,7 +800,22 @@ func (m *mappedFile) newCounter(name string) (v *atomic.Uint64, m1 *mappedFile, 
 		for off := head; off != old; {
 			ename, enext, v, ok := m.entryAt(off)
 			if !ok {
-				return nil, nil, errCorrupt
+				// The entry that won the race may lie beyond our mapping,
+				// because another process has grown the file. Abandon our
+				// record and start over: the lookup at the top re-maps the
+				// file, or reports corruption if it has not grown.
+				next.Store(^uint32(0)) // mark ours as dead
+				v, m2, err := m.newCounter(name)
+				if err != nil {
+					return nil, nil, err
+				}
+				if m2 != nil {
+					if m != orig {
+						m.close()
+					}
+					m = m2
+				}
+				return v, nil, nil
 			}
 			if string(ename) == name {
 				next.Store(^uint32(0)) // mark ours as dead
